@@ -48,13 +48,23 @@ def gen_cases(seed, tier):
             cs.append(('exp', b, e))
     for i in range(60 if tier == 'quick' else 1500):
         cs.append(('exp', rng.word(), rng.word() if i % 3 else rng.below(1 << 20)))
+    # an operation iterated on its own (aliased) result: inv(x,x); inv(x,x) gives x back, x = x/b, x = b/x, x = x^e
+    for i in range(16 if tier == 'quick' else 300):
+        f = ['inv', 'div', 'rdiv', 'exp'][i % 4]
+        a = ops[(i * 13 + 5) % len(ops)]; b = ops[(i * 17 + 9) % len(ops)]
+        if a % P == 0: a = 3
+        if b % P == 0: b = 5
+        cs.append(('chain', a, b if f != 'exp' else [3, 7, 2, 65537][i % 4], f, 4 if f != 'exp' else 3))
     return cs
 
 
 def write_cases(path, cases):
     with open(path, 'w') as f:
         for c in cases:
-            f.write('%s 0x%x 0x%x\n' % c[:3])
+            if c[0] == 'chain':
+                f.write('chain %s %d 0x%x 0x%x\n' % (c[3], c[4], c[1], c[2]))
+            else:
+                f.write('%s 0x%x 0x%x\n' % tuple(c[:3]))
 
 
 def run(tier, seed, replay=None):
@@ -102,7 +112,7 @@ def run(tier, seed, replay=None):
         ci = rec.get('ci', 1)
         how = vlib.confirm_case(wd, 'Trace_Inv', 'Trace_Inv.cfg', lambda cp, tp: [exe, cp, tp], write_cases, cases, ci)
         if how:
-            ck.violation(('%s a=0x%x b=0x%x' % case[:3]) + (vlib.HIST if how == 'history' else ''), 'recorded result fails its certificate: %s' % json.dumps(vlib.compact(rec))[:300],
+            ck.violation(('%s a=0x%x b=0x%x' % tuple(case[:3])) + (' (%s iterated on its own result)' % case[3] if case[0] == 'chain' else '') + (vlib.HIST if how == 'history' else ''), 'recorded result fails its certificate: %s' % json.dumps(vlib.compact(rec))[:300],
                          dict(cases=[list(x) for x in (cases[:ci] if how == 'history' else [case])], event=rec))
         else:
             ck.note('rejection not reproduced on re-run (neither alone nor after its process history): %s' % str(case))
